@@ -167,7 +167,8 @@ def eval_text(case):
 
 EVALUATORS = {"is_url": eval_isurl, "text": eval_text}
 
-NEAR = ["http://expyuzz4wqqyqhjn.onion/", "http://www.example.臺灣/path", "sub.site.onion", "http://lemonde.fr./", "http://foo.com/#!/page#section", "lemonde.fr/a?b=c#d#e", "http://a.com/x y#f#g", "http://a.com?x#y?z#w", "http://lemonde.fr", "https://lemonde.fr/a b", "lemonde.fr", "//lemonde.fr/x", "ftp://lemonde.fr", "wss://a.io/s", "gopher://a.io",
+NEAR = ["http://example.zzzz/unsubscribe?email=bob@example.com", "https://blog.zzzz/@jane.doe.name", "http://a.zzzz/#me@lemonde.fr/about", "a.zzzz/x?u=v@127.0.0.1", "http://a.zzzz/p@localhost",
+        "http://expyuzz4wqqyqhjn.onion/", "http://www.example.臺灣/path", "sub.site.onion", "http://lemonde.fr./", "http://foo.com/#!/page#section", "lemonde.fr/a?b=c#d#e", "http://a.com/x y#f#g", "http://a.com?x#y?z#w", "http://lemonde.fr", "https://lemonde.fr/a b", "lemonde.fr", "//lemonde.fr/x", "ftp://lemonde.fr", "wss://a.io/s", "gopher://a.io",
         "http://a.zzzz", "a.zzzz/x", "http://localhost", "http://localhost:8080/a b", "localhost", "http://127.0.0.1/x", "127.0.0.1",
         "http://256.1.1.1", "http://[::1]/", "[::1]", "http://a", "a", "http://a.b", "http://a.co", "HTTP://LEMONDE.FR/X", "http://é.fr",
         "http://xn--9ca.fr", "http://a.xn--p1ai", "http://a.рф", "http://user:pw@a.com/", "user@a.com", "http://a.com:80", "http://a.com:8",
